@@ -319,6 +319,34 @@ def r12_iteration_exits(ctx):
         okq = len(qs) == 1 and vs_ and qs[0].lineno > vs_[0].lineno
         ctx.check(okq, R, qs[0] if qs else it.node, it, 'the quota is recomputed from those votes in every iteration', 'E.quota = ... after E.votes',
                   'the quota is not recomputed after E.votes in the iteration')
+        # an iteration step that elected somebody reports 'elected' (so the round ends without an exclusion)
+        from .loops import _assign_transfer, _ret_value, _may_be_token, _param_init_facts
+        from ..pathfacts import search, describe
+        iatoms = _atoms(ctx, it)
+        ion = _assign_transfer(ctx, it, iatoms)
+        elects = [x for x in icfg.stmt_nodes() if 'elect' in node_effects(ctx, it, x)]
+
+        def not_elected_return(node, facts):
+            if node.kind == 'stmt' and isinstance(node.ast, ast.Return):
+                v = _ret_value(node.ast, 0)
+                k = iatoms.token_of(v) if v is not None else None
+                if k is not None:
+                    return k != 'elected'
+                if isinstance(v, ast.Name):
+                    cur = facts.get('T:' + v.id)
+                    return not (isinstance(cur, str) and cur == 'elected')
+                return True
+            return False
+        badp = None
+        for e_ in elects:
+            f0 = ion(e_, {}) or {}
+            badp = search(icfg, e_, f0, None, set(), iatoms, on_node=ion, accept=not_elected_return)
+            if badp:
+                break
+        ctx.check(bool(elects) and badp is None, R, it.node, it, 'an iteration in which a candidate was elected reports the status "elected"',
+                  'from every elect call, every return carries the token elected (token facts tracked along the paths)',
+                  'after electing a candidate %s() can still return another status: the round goes on to exclude somebody: %s'
+                  % (it.name, describe(badp) if badp else 'no elect call found'))
         # exclusions in the main loop happen only after an iteration that did not elect
         loop = ri.main_loop()
         el_tests = []
